@@ -184,18 +184,9 @@ pub fn on_server_message(sim: &mut Sim, c: usize, ch: usize, bytes: &[u8], id: u
             .max()
             .unwrap_or(0);
         let bad_ut = msg.update_tick > expect_ut || msg.update_tick < needed;
-        for (e, comps) in &msg.entities {
-            for r in comps {
-                if r.kind.is_entity() {
-                    if sess.ent_taint.get(&(*e, r.kind)) == Some(&u32::MAX) {
-                        // The target changed its client identity (F17) and the reference is re-sent on the
-                        // unreliable channel: that repairs it only if this very message gets written.
-                        sess.heal_pending.entry(id).or_default().push((*e, r.kind));
-                    } else {
-                        sess.ent_taint.insert((*e, r.kind), msg.tick);
-                    }
-                }
-            }
+        let cells: Vec<(u64, Kind)> = msg.entities.iter().flat_map(|(e, comps)| comps.iter().filter(|r| r.kind.is_entity()).map(move |r| (*e, r.kind))).collect();
+        if !cells.is_empty() {
+            sess.frame_refs.push((id, msg.tick, cells));
         }
         sess.mut_by_index.insert(msg.index, id);
         sess.tick_msgs.entry(msg.tick).or_default().push(id);
@@ -282,6 +273,23 @@ pub fn on_server_message(sim: &mut Sim, c: usize, ch: usize, bytes: &[u8], id: u
 // After every server frame
 
 pub fn after_server_frame(sim: &mut Sim, ticked: bool, t: u32, injected: bool) {
+    // References carried by this frame's mutate messages, judged after this frame's update message.
+    for cl in sim.clients.iter_mut() {
+        if let Some(sess) = cl.sess.as_mut() {
+            for (id, tick, cells) in std::mem::take(&mut sess.frame_refs) {
+                for cell in cells {
+                    if sess.ent_taint.get(&cell) == Some(&u32::MAX) {
+                        // The target changed its client identity (F17) and the reference is (re-)sent on the
+                        // unreliable channel in or after the tick of that change: that repairs it only if
+                        // this very message gets written for the entity.
+                        sess.heal_pending.entry(id).or_default().push(cell);
+                    } else {
+                        sess.ent_taint.insert(cell, tick);
+                    }
+                }
+            }
+        }
+    }
     // C04: "replicated up to the tick in which the event was sent" includes the update message of the very
     // frame that flushed the event, wherever the library placed it in that frame's output.
     for cl in sim.clients.iter_mut() {
@@ -885,6 +893,9 @@ pub fn after_client_frame(sim: &mut Sim, c: usize) {
                     if let Some(tcc) = target_held {
                         if tcc != *ct {
                             v.push(("C02", "reference_target", format!("client {c}: entity {se:#x} {k:?} points at client entity {ct:#x}, server target {st:#x} is client entity {tcc:#x}")));
+                            if sess.premap.contains_key(st) {
+                                v.push(("C16", "reference_to_duplicate", format!("client {c}: entity {se:#x} {k:?} points at {ct:#x} although its target {st:#x} was adopted as the pre-spawned {tcc:#x}: a second client entity stands for the server entity")));
+                            }
                         }
                     }
                 }
@@ -1377,6 +1388,9 @@ pub fn end_of_run(sim: &mut Sim) {
                                     if let Some((tcc, ..)) = held.get(st) {
                                         if tcc != ct {
                                             v.push(("C01", "reference_target", format!("client {c}: slot {i} {k:?} -> {ct:#x}, expected {tcc:#x}")));
+                                            if sess.premap.contains_key(st) {
+                                                v.push(("C16", "reference_to_duplicate", format!("client {c}: slot {i} {k:?} -> {ct:#x} although its target {st:#x} was adopted as the pre-spawned {tcc:#x}: a second client entity stands for the server entity")));
+                                            }
                                         }
                                     }
                                 }
